@@ -5,7 +5,7 @@
    Composite classes (Kron, Block*, BatchRepeat, KronAddedDiag) are covered kernel-wise by
    ProofsKron / ProofsBlock / ProofsEig. *)
 From mathcomp Require Import all_ssreflect all_algebra.
-Require Import C04.Model C04.ProofsBridge C04.ProofsTri C04.ProofsChol C04.ProofsStruct C04.ProofsCholFactor.
+Require Import C04.Model C04.ProofsBridge C04.ProofsTri C04.ProofsChol C04.ProofsStruct C04.ProofsCholFactor C04.ProofsJitter.
 Set Implicit Arguments.
 Unset Strict Implicit.
 Unset Printing Implicit Defensive.
@@ -20,31 +20,37 @@ Local Notation cvo := (cv_of (@rsq F) (@rlt F)).
 Local Notation get := (get RA).
 Local Notation vget := (vget RA).
 
+(* the plain factorisation succeeds (numerically positive definite): psd_safe_cholesky then adds no jitter and the
+   factor is the factor of the matrix itself.  (When it fails the library factorises M + jitter I instead - see
+   ProofsJitter.psd_safe_chol_correct - and what solve returns is the solution of THAT system.) *)
+Definition chol_ok n (M : mat F) : Prop := n != 1%N -> (chol RA n M).2 = 0%N.
+
 (* well-formed leaf operators *)
 Definition wf_leaf (o : opd F) : Prop :=
   match o with
-  | DGeneric n M | DAddedDiag n M => symmetric n M /\ (n = 1%N -> 0 < get M 0 0)
+  | DGeneric n M | DAddedDiag n M => [/\ symmetric n M, (n = 1%N -> 0 < get M 0 0) & chol_ok n M]
   | DDiag n d => all_nz (@rsq F) (@rlt F) n d
   | DIdentity _ => True
   | DChol up n T | DTriDense up n T => tri_flag (@rsq F) (@rlt F) up n T /\ diag_nz (@rsq F) (@rlt F) n T
-  | DLowRankRootAddedDiag n k U d => all_nz (@rsq F) (@rlt F) n d /\ (k = 1%N -> 0 < get (cap_mat RA n k U d) 0 0)
+  | DLowRankRootAddedDiag n k U d =>
+      [/\ all_nz (@rsq F) (@rlt F) n d, (k = 1%N -> 0 < get (cap_mat RA n k U d) 0 0) & chol_ok k (cap_mat RA n k U d)]
   | _ => False
   end.
 
 (* base-class _cholesky on a dense symmetric matrix *)
-Lemma dense_cholesky_correct n M L : symmetric n M -> (n = 1%N -> 0 < get M 0 0) ->
-  dense_cholesky RA n M = Some L ->
+Lemma dense_cholesky_correct s n M L : symmetric n M -> (n = 1%N -> 0 < get M 0 0) -> chol_ok n M ->
+  dense_cholesky RA s n M = Some L ->
   [/\ lower_tri (@rsq F) (@rlt F) n L, diag_nz (@rsq F) (@rlt F) n L & mxo n n L *m (mxo n n L)^T = mxo n n M].
 Proof.
-move=> sym p1; rewrite /dense_cholesky; case: eqP => [e1|_].
+move=> sym p1 ok; rewrite /dense_cholesky; case: eqP => [e1|/eqP ne1].
 - move: (p1 e1) => m0 [<-]; rewrite e1 /= /rlt ltNge (ltW m0) /=.
   split.
   + by move=> [|i] [|j].
   + by move=> [|i] // _; rewrite /Model.get /= gt_eqF // sqrtr_gt0.
   + apply/matrixP => i j; rewrite !mxE big_ord_recl big_ord0 addr0 !mxE !ord1 /Model.get /=.
     by rewrite -expr2 sqr_sqrtr // ltW.
-- case E: (chol RA n M) => [L' info]; case: eqP => // e0 [<-].
-  by rewrite e0 in E; exact: chol_factor_correct E sym.
+- have := ok ne1; case E: (chol RA n M) => [L' info] /= e0; rewrite e0 in E.
+  by rewrite (psd_safe_nojitter _ _ E) => -[<-]; exact: chol_factor_correct E sym.
 Qed.
 
 Lemma cap_symmetric n k U d : symmetric k (cap_mat RA n k U d).
@@ -90,32 +96,32 @@ Definition solves (o : opd F) (x b : vec F) : Prop :=
 Lemma omap_some (f : vec F -> vec F) (B X : cols F) : omap f B = Some X -> X = map f B.
 Proof. by case. Qed.
 
-Lemma run_cg o p r (B : cols F) : run_method RA o (MCG p r) B = None.
+Lemma run_cg s o p r (B : cols F) : run_method RA s o (MCG p r) B = None.
 Proof. by case: o. Qed.
 
-Lemma run_chol_generic n M (B : cols F) :
-  run_method RA (DGeneric n M) (MCholesky (if n == 1%N then PScalar else PDense n)) B
-  = if dense_cholesky RA n M is Some L then omap (chol_solve RA false n L) B else None.
+Lemma run_chol_generic s n M (B : cols F) :
+  run_method RA s (DGeneric n M) (MCholesky (if n == 1%N then PScalar else PDense n)) B
+  = if dense_cholesky RA s n M is Some L then omap (chol_solve RA false n L) B else None.
 Proof. by case: (n == 1%N). Qed.
 
-Lemma run_chol_added n M (B : cols F) :
-  run_method RA (DAddedDiag n M) (MCholesky (if n == 1%N then PScalar else PDense n)) B
-  = if dense_cholesky RA n M is Some L then omap (chol_solve RA false n L) B else None.
+Lemma run_chol_added s n M (B : cols F) :
+  run_method RA s (DAddedDiag n M) (MCholesky (if n == 1%N then PScalar else PDense n)) B
+  = if dense_cholesky RA s n M is Some L then omap (chol_solve RA false n L) B else None.
 Proof. by case: (n == 1%N). Qed.
 
-Lemma run_diag n d (B : cols F) : run_method RA (DDiag n d) MDiagDiv B = omap (diag_solve RA n d) B.
+Lemma run_diag s n d (B : cols F) : run_method RA s (DDiag n d) MDiagDiv B = omap (diag_solve RA n d) B.
 Proof. by []. Qed.
-Lemma run_ident n (B : cols F) : run_method RA (DIdentity F n) MIdentity B = Some B.
+Lemma run_ident s n (B : cols F) : run_method RA s (DIdentity F n) MIdentity B = Some B.
 Proof. by []. Qed.
-Lemma run_cholfac up n T (B : cols F) : run_method RA (DChol up n T) MCholFactor B = omap (chol_solve RA up n T) B.
+Lemma run_cholfac s up n T (B : cols F) : run_method RA s (DChol up n T) MCholFactor B = omap (chol_solve RA up n T) B.
 Proof. by []. Qed.
-Lemma run_tri up n T (B : cols F) : run_method RA (DTriDense up n T) MTriSubst B = omap (tri_solve RA up n T) B.
+Lemma run_tri s up n T (B : cols F) : run_method RA s (DTriDense up n T) MTriSubst B = omap (tri_solve RA up n T) B.
 Proof. by []. Qed.
-Lemma run_wood n k U d (B : cols F) :
-  run_method RA (DLowRankRootAddedDiag n k U d) (MWoodbury k) B =
-  if dense_cholesky RA k (cap_mat RA n k U d) is Some Lc then omap (woodbury_solve RA n k U d Lc) B else None.
+Lemma run_wood s n k U d (B : cols F) :
+  run_method RA s (DLowRankRootAddedDiag n k U d) (MWoodbury k) B =
+  if dense_cholesky RA s k (cap_mat RA n k U d) is Some Lc then omap (woodbury_solve RA n k U d Lc) B else None.
 Proof. by []. Qed.
-Lemma run_perm p (B : cols F) : run_method RA (DPerm F p) MPermT B = omap (perm_solve RA p) B.
+Lemma run_perm s p (B : cols F) : run_method RA s (DPerm F p) MPermT B = omap (perm_solve RA p) B.
 Proof. by []. Qed.
 
 Local Arguments run_method : simpl never.
@@ -129,20 +135,20 @@ Theorem alg_solve_sound_leaf (s : settings) (o : opd F) (B X : cols F) :
 Proof.
 case: o => //=.
 - (* DGeneric *)
-  move=> n M [sym p1] sz; rewrite /alg_solve /select_solve /= /solve_fn /=.
+  move=> n M [sym p1 ok] sz; rewrite /alg_solve /select_solve /= /solve_fn /=.
   case: ifP => _; last by rewrite run_cg.
   rewrite run_chol_generic.
-  case E: (dense_cholesky RA n M) => [L|//] /omap_some ->; rewrite size_map; split=> // j jB.
-  have [lo nz HL] := dense_cholesky_correct sym p1 E.
+  case E: (dense_cholesky RA s n M) => [L|//] /omap_some ->; rewrite size_map; split=> // j jB.
+  have [lo nz HL] := dense_cholesky_correct sym p1 ok E.
   rewrite /solves /= (nth_map [::]) // -HL.
   exact: (@chol_solve_correct _ (@rsq F) (@rlt F) false).
 - (* DAddedDiag *)
-  move=> n M [sym p1] sz; rewrite /alg_solve /select_solve /= /solve_fn /=.
+  move=> n M [sym p1 ok] sz; rewrite /alg_solve /select_solve /= /solve_fn /=.
   case: (added_diag_precond s n) => pc rk /=.
   case: ifP => _; last by case: pc; rewrite run_cg.
   rewrite run_chol_added.
-  case E: (dense_cholesky RA n M) => [L|//] /omap_some ->; rewrite size_map; split=> // j jB.
-  have [lo nz HL] := dense_cholesky_correct sym p1 E.
+  case E: (dense_cholesky RA s n M) => [L|//] /omap_some ->; rewrite size_map; split=> // j jB.
+  have [lo nz HL] := dense_cholesky_correct sym p1 ok E.
   rewrite /solves /= (nth_map [::]) // -HL.
   exact: (@chol_solve_correct _ (@rsq F) (@rlt F) false).
 - (* DDiag *)
@@ -161,9 +167,9 @@ case: o => //=.
   move=> up n T [tr nz] sz; rewrite /alg_solve /select_solve /= => -[<-]; rewrite size_map; split=> // j jB.
   by rewrite /solves (nth_map [::]) //=; exact: tri_solve_correct.
 - (* DLowRankRootAddedDiag *)
-  move=> n k U d [nz p1] sz; rewrite /alg_solve /select_solve /= run_wood.
-  case E: (dense_cholesky RA k (cap_mat RA n k U d)) => [Lc|//]; rewrite /omap => -[<-]; rewrite size_map; split=> // j jB.
-  have [lo dz HL] := dense_cholesky_correct (@cap_symmetric n k U d) p1 E.
+  move=> n k U d [nz p1 ok] sz; rewrite /alg_solve /select_solve /= run_wood.
+  case E: (dense_cholesky RA s k (cap_mat RA n k U d)) => [Lc|//]; rewrite /omap => -[<-]; rewrite size_map; split=> // j jB.
+  have [lo dz HL] := dense_cholesky_correct (@cap_symmetric n k U d) p1 ok E.
   rewrite /solves (nth_map [::]) // dense_lrrad.
   exact: woodbury_solve_correct.
 Qed.
@@ -182,19 +188,19 @@ suff [X [HX ->]] : exists X, alg_solve RA s o B None = Some X /\ Y = left_mul RA
 case: o wf sz H => //=.
 - move=> n M _ _; rewrite /alg_solve /select_solve /= /solve_fn /=.
   case: ifP => _; last by rewrite run_cg.
-  rewrite !run_chol_generic; case: (dense_cholesky RA n M) => [Lc|//]; rewrite /omap => -[<-].
+  rewrite !run_chol_generic; case: (dense_cholesky RA s n M) => [Lc|//]; rewrite /omap => -[<-].
   by eexists; split; first reflexivity; rewrite -map_drop drop_size_cat // size_mkseq.
 - move=> n M _ _; rewrite /alg_solve /select_solve /= /solve_fn /=.
   case: (added_diag_precond s n) => pc rk /=.
   case: ifP => _; last by case: pc; rewrite run_cg.
-  rewrite !run_chol_added; case: (dense_cholesky RA n M) => [Lc|//]; rewrite /omap => -[<-].
+  rewrite !run_chol_added; case: (dense_cholesky RA s n M) => [Lc|//]; rewrite /omap => -[<-].
   by eexists; split; first reflexivity; rewrite -map_drop drop_size_cat // size_mkseq.
 - by move=> n d _ _; rewrite /alg_solve /select_solve /= => -[<-]; eexists; split; first reflexivity.
 - by move=> n _ _; rewrite /alg_solve /select_solve /= => -[<-]; eexists; split; first reflexivity.
 - by move=> up n T _ _; rewrite /alg_solve /select_solve /= => -[<-]; eexists; split; first reflexivity.
 - by move=> up n T _ _; rewrite /alg_solve /select_solve /= => -[<-]; eexists; split; first reflexivity.
 - move=> n k' U d _ _; rewrite /alg_solve /select_solve /= run_wood.
-  case: (dense_cholesky RA k' (cap_mat RA n k' U d)) => [Lc|//]; rewrite /omap => -[<-].
+  case: (dense_cholesky RA s k' (cap_mat RA n k' U d)) => [Lc|//]; rewrite /omap => -[<-].
   by eexists; split; first reflexivity.
 Qed.
 
